@@ -3,6 +3,7 @@ import Utv.Gen.Field
 import Utv.Gen.JsonTables
 import Utv.Gen.CodecTables
 import Utv.Gen.Encode
+import Utv.Gen.Generator
 import Utv.Model.C13
 /-!
 C13 — T1 obligations: the field predicates the JSON-schema generator's model relies on (`Model/C13.lean`:
@@ -147,5 +148,70 @@ theorem C13_gen_js_unsafe (W : World Unit) (i : Int) :
   gen_obligation "C13_gen_js_unsafe: the regenerated code (Utv.Gen) is no longer equal to the hand model here" by
     obj_simp [Encode.js_unsafe, gt, lt, intOf?, jsUnsafe, Utv.JsonSchema.Num.lt, Utv.JsonSchema.Num.ofInt, MAX_SAFE]
     by_cases h1 : 9007199254740991 < i <;> by_cases h2 : i < -9007199254740991 <;> simp [h1, h2] <;> omega
+
+/-! ### `_get_primitive` / `_get_format`: the first table entry whose classes cover the origin -/
+
+def encPair (kv : String × String) : U := .seq .tuple [.str kv.1, .str kv.2]
+
+/-- a scan that returns at the first covering entry and otherwise leaves its state alone -/
+theorem forIn_cover {σ : Type} (g : U → σ → M Unit (ForInStep σ)) (s0 : σ) (p : Prim) (fin : String → σ)
+    (hg : ∀ k v, g (encPair (k, v)) s0 = .ok (if covers k p then .done (fin v) else .yield s0))
+    (tbl : List (String × String)) :
+    forIn (tbl.map encPair) s0 g = .ok (match firstCover p tbl with
+      | some v => fin v
+      | none => s0) := by
+  induction tbl with
+  | nil => rfl
+  | cons kv rest ih =>
+    obtain ⟨k, v⟩ := kv
+    rw [List.map_cons, List.forIn_cons, hg]
+    cases hc : covers k p with
+    | true => simp [firstCover, hc, bind, Except.bind, pure, Except.pure]
+    | false => simp [firstCover, hc, bind, Except.bind, ih]
+
+/-- the origin class of a `Prim`: a class without a `format` attribute, whose `issubclass` against a table key (as
+written in the source) is the model's `covers` -/
+structure OriginOk (W : World Unit) (n : Nat) (p : Prim) : Prop where
+  noFormat : W.clsAttr n "format" = none
+  sub : ∀ key, W.ext "issubclass" [.cls n, .str key] = .ok (.bool (covers key p))
+
+theorem C13_gen_get_primitive (W : World Unit) (n : Nat) (p : Prim) (hw : OriginOk W n p) :
+    Generator.get_primitive W (.obj "JsonSchemaGenerator" [("DEFAULT_PRIMITIVE", .str JsonTables.DEFAULT_PRIMITIVE)]) (.cls n)
+      = .ok (.str (getPrimitive p)) := by
+  gen_obligation "C13_gen_get_primitive: the regenerated code (Utv.Gen) is no longer equal to the hand model here" by
+    unfold Generator.get_primitive
+    simp only [truthy_cls, bind, Except.bind, pure, Except.pure, Bool.not_true, Bool.false_eq_true, if_false]
+    have ht : dictItems (V := Unit) (OVal.dict [(OVal.str "type(None)", OVal.str "null"), (OVal.str "bool", OVal.str "boolean"),
+              (OVal.str "MAP_TYPES", OVal.str "object"), (OVal.str "SEQ_TYPES", OVal.str "array"),
+              (OVal.str "int", OVal.str "integer"), (OVal.str "(float, Decimal)", OVal.str "number")])
+        = .ok (.seq .list (PRIMITIVE_MAP.map encPair)) := rfl
+    simp only [ht, iter, pure, Except.pure]
+    rw [forIn_cover (p := p) (fin := fun v => (some (OVal.str v), ()))]
+    · cases hf : firstCover p PRIMITIVE_MAP <;> simp [getPrimitive, hf, getattr, lookupAttr, pure, Except.pure] <;> rfl
+    · intro k v
+      cases hc : covers k p <;>
+        simp [encPair, unpack2, hw.sub, hc, bind, Except.bind, pure, Except.pure]
+
+theorem C13_gen_get_format (W : World Unit) (self : U) (n : Nat) (p : Prim) (hw : OriginOk W n p) :
+    Generator.get_format W self (.cls n)
+      = .ok (match getFormat p with
+        | some f => .str f
+        | none => .none) := by
+  gen_obligation "C13_gen_get_format: the regenerated code (Utv.Gen) is no longer equal to the hand model here" by
+    unfold Generator.get_format
+    simp only [truthy_cls, truthy_none, getattrD, hw.noFormat, Option.getD, bind, Except.bind, pure, Except.pure, Bool.not_true,
+      Bool.false_eq_true, if_false]
+    have ht : dictItems (V := Unit) (OVal.dict [((OVal.str "(bytes, bytearray, memoryview)"), (OVal.str "binary")),
+        ((OVal.str "float"), (OVal.str "float")), ((OVal.str "IPv4Address"), (OVal.str "ipv4")),
+        ((OVal.str "IPv6Address"), (OVal.str "ipv6")), ((OVal.str "datetime"), (OVal.str "date-time")),
+        ((OVal.str "date"), (OVal.str "date")), ((OVal.str "time"), (OVal.str "time")),
+        ((OVal.str "timedelta"), (OVal.str "duration")), ((OVal.str "UUID"), (OVal.str "uuid"))])
+        = .ok (.seq .list (FORMAT_MAP.map encPair)) := rfl
+    simp only [ht, iter, pure, Except.pure]
+    rw [forIn_cover (p := p) (fin := fun v => (some (OVal.str v), ()))]
+    · cases hf : firstCover p FORMAT_MAP <;> simp [getFormat, hf]
+    · intro k v
+      cases hc : covers k p <;>
+        simp [encPair, unpack2, hw.sub, hc, bind, Except.bind, pure, Except.pure]
 
 end Utv.GenEq.C13
